@@ -701,6 +701,12 @@ class UnitExp:
       return self.same([self.of(a[0]), self.of(a[2])], t)
     if k == 'mapover':
       return self.of(a[0])
+    if k in ('cmp', 'bool'):
+      return 0    # truth values carry no unit
+    if k == 'attr' and a[1] in ('dtype', 'shape', 'ndim', 'size'):
+      return 0    # metadata
+    if k == 'call' and a[0].k == 'attr' and a[0].a[1] == 'astype':
+      return self.of(a[0].a[0])
     if k == 'call':
       s = self.summaries(t)
       data = self.linear_ops(t)
